@@ -26,6 +26,8 @@ def replay_committed(prop, exe, extra=()):
     """Committed replays are regression inputs: each must pass on a tree where the property holds."""
     viol = []
     n = 0
+    if os.environ.get("VERIF_SKIP_COMMITTED_REPLAYS"):   # sensitivity experiments only: measures what generation alone finds
+        return 0, []
     for path in sorted(glob.glob(os.path.join(runner.COMMITTED_REPLAYS, prop + "-*.case"))):
         n += 1
         oc = runner.run_replay(exe, path, extra)
